@@ -20,7 +20,7 @@ RULE = (
     "leading dimensions, or a size coincidence between element kinds, or file-supplied centres, or different source and destination."
 )
 ASSUMPTIONS = [
-    "positions of source and destination elements are those a fresh grid of the same source reports (centres from the file where supplied)",
+    "positions of source and destination elements: centres from the file where supplied (what a fresh grid of the same source reports); for grids built from a bare topology the model's own - nodes, normalised corner mean of a face (C04), midpoint of an edge",
     "coordinates are attached to leading dimensions only",
     "k is admissible: 2 <= k <= number of source elements of the data's kind",
 ]
@@ -67,6 +67,18 @@ def positions(g, kind):
     return ref.lonlat_to_xyz(lon, lat)
 
 
+def model_positions(g, m, kind):
+    """positions of the elements of a grid built from a bare topology (no centres supplied): the mesh's own nodes, the normalised
+    corner mean of each face, the midpoint of each edge (edge order: the grid's edge table) - nothing taken from the library's
+    centre computation, so that a misplaced computed centre shows as a wrong neighbour"""
+    if kind == "nodes":
+        return ref.unit(m.xyz)
+    if kind == "face centers":
+        return np.array([ref.unit(m.ring_pos(i).mean(axis=0)) for i in range(m.n_face)])
+    en = np.asarray(g.edge_node_connectivity.values)
+    return ref.unit(m.xyz[en[:, 0]] + m.xyz[en[:, 1]])
+
+
 def build_source(case, m, rng):
     U = ux.ux()
     if case["source_kind"] == "mpas" and ref.is_manifold(m.faces):
@@ -110,7 +122,7 @@ def run_case(ctx, case):
         kind = KINDS[dim]
         ne = counts[dim]
         coincide = sorted(d for d in counts if d != dim and counts[d] == ne)
-        P_src = positions(gs_twin, kind)
+        P_src = positions(gs_twin, kind) if supplied else model_positions(gs_twin, ms, kind)
         # tie tolerance (radians).  1e-9 normally.  Elements inside the library's pole-snapping band have a lon/lat position (at the
         # pole) and a Cartesian one (up to 1.42e-4 rad away): either may be used.  Cartesian coordinates in metres make the chord
         # |R p - q|^2 = R^2 + 1 - 2 R p.q resolve angles only to eps * R / (2 sin(angle)).
@@ -137,7 +149,7 @@ def run_case(ctx, case):
             da = da.chunk({dim: max(1, ne // 2)})  # dask-backed source data
             ctx.observe("dask_backed_source_data")
         for remap_to in (DESTS if not case.get("sized") else ["face centers"]):
-            P_dst = positions(gd_twin, remap_to)
+            P_dst = positions(gd_twin, remap_to) if (case["same"] and supplied) else model_positions(gd_twin, ms if case["same"] else md, remap_to)
             nd = len(P_dst)
             D = nn.distances("haversine", P_src, None, q_xyz=P_dst)  # (nd, ne)
             dst_band = bool(np.any(np.abs(P_dst[:, 2]) > 1 - 1.01e-8))
@@ -178,7 +190,7 @@ def run_case(ctx, case):
                     with warnings.catch_warnings():
                         warnings.simplefilter("ignore")
                         r2 = da.remap.nearest_neighbor(gd2, remap_to=remap_to, coord_type=coord_type)
-                    P2 = positions(gd2_twin, remap_to)
+                    P2 = model_positions(gd2_twin, md2, remap_to)
                     D2 = nn.distances("haversine", P_src, None, q_xyz=P2)
                     v2 = np.asarray(r2.values)
                     good2 = v2.shape == lead + (len(P2),) and r2.uxgrid is gd2
